@@ -123,7 +123,11 @@ class RedisStorage(QueueStorage):
                 key = key.decode('utf-8')
             if key != self.queue_key:
                 id = key[len(self.prefix):]
-                timestamp = self.redis.hget(key, 'timestamp') or time.time()
+                timestamp = self.redis.hget(key, 'timestamp')
+                if timestamp is None:
+                    # Removed meanwhile, or not completely written yet (in
+                    # which case wait() will announce it).
+                    continue
                 yield float(timestamp), id
 
     def get(self, id):
